@@ -72,7 +72,13 @@ class ChainHist(Engine):
                                  'ch': rng.choice('qpzry9x8gf2tvdw0s3jn54khce6mua7l123456789ABCDEFGHJKLMNPQRSTUVWXYZabcdefghijkmnopqrstuvwxyz0OIl')}
             elif r < 0.8:
                 a = {'op': 'parse_wv', 'version': rng.randint(1, 16), 'prog': gen.rhex(rng, rng.choice([2, 20, 32, 40, rng.randint(2, 40)])),
-                     'hrp': rng.choice(['own', 'own', 'own', 'bc', 'tb', 'bcrt'])}
+                     'hrp': rng.choice(['own', 'own', 'own', 'bc', 'tb', 'bcrt']), 'const': 1}
+                if rng.random() < 0.4:
+                    # structurally perfect text under a foreign checksum constant (BIP350's, or junk)
+                    a['const'] = rng.choice([RB32.BECH32M_CONST, RB32.BECH32M_CONST, 0, 0x3fffffff])
+                    a['version'] = rng.choice([0, 0, 0, 1, 16])
+                    if a['version'] == 0:
+                        a['prog'] = gen.rhex(rng, rng.choice([20, 32]))
             elif r < 0.87:
                 a = {'op': 'parse_b58', 'version': rng.choice(['p2pkh', 'p2sh', 'wif', rng.randrange(256)]), 'len': rng.choice([0, 1, 19, 21, 20, 32, 33, 24])
                      , 'payload': gen.rhex(rng, 40)}
@@ -201,8 +207,13 @@ class ChainHist(Engine):
             return
         if op == 'parse_wv':
             hrp = RC.TABLE[self.chain]['hrp'] if a['hrp'] == 'own' else a['hrp']
-            text = RB32.encode(hrp, a['version'], bytes.fromhex(a['prog']))
-            ctx.fault('unsupported-witness-version')
+            if a.get('const', 1) != 1:
+                d5 = [a['version']] + RB32.to5(bytes.fromhex(a['prog']))
+                text = hrp + '1' + ''.join(RB32.CHARSET[d] for d in d5 + RB32.checksum(hrp, d5, a['const']))
+                ctx.fault('foreign-checksum-constant')
+            else:
+                text = RB32.encode(hrp, a['version'], bytes.fromhex(a['prog']))
+                ctx.fault('unsupported-witness-version')
             self._parse(text, 'witver%d' % a['version'])
             return
         if op == 'parse_b58':
